@@ -459,7 +459,11 @@ class MacroProgram(ElementProgram):
             REPEAT = skip
         else:
             defines = tal.parse_defines(clause)
-            assert len(defines) == 1
+            if len(defines) != 1:
+                raise LanguageError(
+                    "A repeat statement takes exactly one definition.",
+                    clause
+                )
             context, names, expr = defines[0]
 
             expression = nodes.Value(expr)
